@@ -303,6 +303,24 @@ func block(key string, ws []string, w int) []string {
 }
 
 // genGbRecord builds a random abstract record and lays it out with the harness's own writer
+// gbForce, when set, fixes the division, molecule type and topology of the next generated records
+var gbForce struct{ div, mol, topo string }
+
+var gbDivisions = []string{"PRI", "ROD", "MAM", "VRT", "INV", "PLN", "BCT", "VRL", "PHG", "SYN", "UNA", "EST", "PAT", "STS", "GSS", "HTG", "HTC", "ENV"}
+
+// locusSweep calls f once for every division (18) x molecule type (4), topologies alternating
+func locusSweep(f func()) {
+	k := 0
+	for _, d := range gbDivisions {
+		for _, m := range []string{"DNA", "mRNA", "tRNA", "rRNA"} {
+			gbForce.div, gbForce.mol, gbForce.topo = d, m, []string{"linear", "circular"}[k%2]
+			k++
+			f()
+		}
+	}
+	gbForce.div = ""
+}
+
 func genGbRecord(rng *rand.Rand, maxSeq, maxFeats int) (lines []string, want gbRec) {
 	if maxSeq < 0 { // one record well beyond 64 KiB of text
 		maxSeq = 70000 + rng.Intn(20000)
@@ -342,7 +360,10 @@ func genGbRecordN(rng *rand.Rand, fixedN, maxSeq, maxFeats int) (lines []string,
 		name = name[:2]
 	}
 	want.Locus = gbLocus{name, fmt.Sprint(n), []string{"DNA", "mRNA", "tRNA", "rRNA"}[rng.Intn(4)], []string{"linear", "circular"}[rng.Intn(2)],
-		[]string{"BCT", "SYN", "PLN", "VRL", "PHG", "UNA"}[rng.Intn(6)], fmt.Sprintf("%02d-%s-%d", 1+rng.Intn(28), []string{"JAN", "FEB", "MAR", "OCT", "DEC"}[rng.Intn(5)], 1990+rng.Intn(35))}
+		[]string{"PRI", "ROD", "MAM", "VRT", "INV", "PLN", "BCT", "VRL", "PHG", "SYN", "UNA", "EST", "PAT", "STS", "GSS", "HTG", "HTC", "ENV"}[rng.Intn(18)], fmt.Sprintf("%02d-%s-%d", 1+rng.Intn(28), []string{"JAN", "FEB", "MAR", "APR", "MAY", "JUN", "JUL", "AUG", "SEP", "OCT", "NOV", "DEC"}[rng.Intn(12)], 1990+rng.Intn(35))}
+	if gbForce.div != "" { // the LOCUS sweep: every division with every molecule type and topology
+		want.Locus.Div, want.Locus.Mol, want.Locus.Topo = gbForce.div, gbForce.mol, gbForce.topo
+	}
 	lc := want.Locus
 	if rng.Intn(2) == 0 {
 		lines = append(lines, fmt.Sprintf("LOCUS       %-16s %11s bp    %-6s  %-8s %s %s", lc.Name, lc.Len, lc.Mol, lc.Topo, lc.Div, lc.Date))
@@ -524,6 +545,10 @@ func c01Record(tier string, seed int64, emit func(interface{})) {
 	if tier == "thorough" {
 		n, maxSeq, maxFeats = 300, 100000, 40
 	}
+	locusSweep(func() {
+		l, w := genGbRecord(rng, 130, 2)
+		emit(map[string]interface{}{"k": "parse", "lines": l, "want": w.canon(), "records": 1, "diff": checkGbText([][]string{l}, []gbRec{w})})
+	})
 	for i := 0; i < n; i++ {
 		k := 1
 		if rng.Intn(3) == 0 {
